@@ -85,8 +85,12 @@ func setup(in *RunIn) (*world.World, context.Context, error) {
 		}
 		w.Cluster.UpdateNodeClaim(nc)
 	}
-	// pods: eviction-cost inputs
+	// pods: eviction-cost inputs (the extension of a churn pod is applied when that pod is created)
+	churnPods := churnPodExts(in)
 	for _, pe := range in.Pods {
+		if _, ok := churnPods[pe.Pod]; ok {
+			continue
+		}
 		p := &corev1.Pod{}
 		if err := w.Client.Get(ctx, types.NamespacedName{Namespace: "default", Name: pe.Pod}, p); err != nil {
 			return nil, nil, fmt.Errorf("pod ext %s: %w", pe.Pod, err)
@@ -277,12 +281,60 @@ func candidates(ctx context.Context, w *world.World, m methodT, q *disruption.Qu
 
 func nodeNameOf(c *disruption.Candidate) string { return strings.TrimPrefix(c.Name(), "nc-") }
 
-func applyChurn(ctx context.Context, w *world.World, ch *Churn) error {
+// churnPodExts: the PodExt entries of the input that belong to pods created by the churn.
+func churnPodExts(in *RunIn) map[string]PodExt {
+	names := map[string]bool{}
+	for _, e := range in.Churn.events() {
+		if e.Pod != nil {
+			names[e.Pod.Name] = true
+		}
+	}
+	out := map[string]PodExt{}
+	for _, pe := range in.Pods {
+		if names[pe.Pod] {
+			out[pe.Pod] = pe
+		}
+	}
+	return out
+}
+
+// applyChurn delivers the input's change (and the changes that come with it, in order).
+func applyChurn(ctx context.Context, w *world.World, in *RunIn) error {
+	exts := churnPodExts(in)
+	for i, e := range in.Churn.events() {
+		if err := applyChurn1(ctx, w, &e, exts, 9000+i); err != nil {
+			return err
+		}
+	}
+	return nil
+}
+
+func churnPod(w *world.World, ch *Churn, node string, exts map[string]PodExt, seq int) *corev1.Pod {
+	p := w.BuildPod(*ch.Pod, node, seq)
+	if pe, ok := exts[ch.Pod.Name]; ok {
+		if pe.DelCost != nil {
+			if p.Annotations == nil {
+				p.Annotations = map[string]string{}
+			}
+			p.Annotations[corev1.PodDeletionCost] = strconv.FormatInt(*pe.DelCost, 10)
+		}
+		if pe.Priority != nil {
+			pr := *pe.Priority
+			p.Spec.Priority = &pr
+		}
+		if pe.Phase != "" {
+			p.Status.Phase = corev1.PodPhase(pe.Phase)
+		}
+	}
+	return p
+}
+
+func applyChurn1(ctx context.Context, w *world.World, ch *Churn, exts map[string]PodExt, seq int) error {
 	switch ch.Kind {
 	case "pod":
-		return w.Client.Create(ctx, w.BuildPod(*ch.Pod, "", 9000))
+		return w.Client.Create(ctx, churnPod(w, ch, "", exts, seq))
 	case "bound":
-		p := w.BuildPod(*ch.Pod, ch.Node, 9000)
+		p := churnPod(w, ch, ch.Node, exts, seq)
 		if err := w.Client.Create(ctx, p); err != nil {
 			return err
 		}
@@ -310,6 +362,9 @@ func applyChurn(ctx context.Context, w *world.World, ch *Churn) error {
 		return nil
 	case "delnode":
 		w.Cluster.MarkForDeletion("fake://" + ch.Node)
+		return nil
+	case "nominate":
+		w.Cluster.NominateNodeForPod(ctx, "fake://"+ch.Node)
 		return nil
 	}
 	return fmt.Errorf("bad churn %q", ch.Kind)
@@ -396,7 +451,7 @@ wait:
 				waited = true
 				if deliverChurn && in.Churn != nil && !out.Churned {
 					out.Churned = true
-					if err := applyChurn(ctx, w, in.Churn); err != nil {
+					if err := applyChurn(ctx, w, in); err != nil {
 						return nil, nil, nil, false, err
 					}
 				}
@@ -507,7 +562,7 @@ func resim(in *RunIn, nodes []string, churned bool) (*SimOut, error) {
 		return &SimOut{Err: e, Claims: []ClaimO{}, Outcome: world.Outcome{Existing: []world.ExistingOut{}, Claims: []world.ClaimOut{}, Errors: map[string]string{}}}
 	}
 	if churned && in.Churn != nil {
-		if err := applyChurn(ctx, w, in.Churn); err != nil {
+		if err := applyChurn(ctx, w, in); err != nil {
 			return nil, err
 		}
 		// the validation this re-simulation stands for runs after the wait
